@@ -7,8 +7,8 @@ import random
 from harness import common as C
 
 TIERS = {
-    "quick": dict(fams=[("F1", 4), ("F2", 1), ("F3", 1), ("F4", 1), ("F5", 1), ("F5n", 1), ("F6", 1)], rnd=3000),
-    "thorough": dict(fams=[("F1", 5), ("F2", 1), ("F3", 1), ("F4", 1), ("F5", 1), ("F5n", 1), ("F6", 1)], rnd=40000),
+    "quick": dict(fams=[("F1", 4), ("F2", 1), ("F3", 1), ("F4", 1), ("F5", 1), ("F5n", 1), ("F6", 1)], rnd=3000, long=400),
+    "thorough": dict(fams=[("F1", 5), ("F2", 1), ("F3", 1), ("F4", 1), ("F5", 1), ("F5n", 1), ("F6", 1)], rnd=40000, long=4000),
 }
 
 
@@ -27,7 +27,7 @@ def perms(n, rng):
 def run_case(sc):
     from tola.assembly.assembly import Assembly
     from tola.assembly.scaffold import Scaffold
-    names = ["".join(n) for n in sc["names"]]
+    names = [sc.get("pad", "") + "".join(n) for n in sc["names"]]
     rng = random.Random(sc["tid"])
     runs = []
     for perm in perms(len(names), rng):
@@ -43,7 +43,7 @@ def run_case(sc):
             # history: the same scaffold objects are renamed in place (names rotated by one) and sorted again
             for s, b in zip(scs, perm):
                 s.name = names[b % len(names)]
-            on2 = ["".join(x) for x in [list(s.name) for s in a.scaffolds_sorted_by_name()]]
+            on2 = [s.name for s in a.scaffolds_sorted_by_name()]
             return on, orr, [names.index(x) + 1 for x in on2]
         out = C.guarded(call, None, 5.0)
         if out[0] == "ok":
@@ -51,7 +51,8 @@ def run_case(sc):
         else:
             r["exc"] = out[1] if out[0] == "exc" else "HANG"
         runs.append(r)
-    return {"tid": sc["tid"], "fam": sc["fam"], "names": sc["names"], "ranks": sc["ranks"], "claims": sc["claims"], "runs": runs}
+    return {"tid": sc["tid"], "fam": sc["fam"], "names": sc["names"], "ranks": sc["ranks"], "claims": sc["claims"], "runs": runs, "pad": sc.get("pad", ""),
+            "variant": "long" if sc.get("pad") else ""}
 
 
 def random_scen(rng, n):
@@ -80,7 +81,7 @@ def main(tier, replay=None):
     scen = []
     states = gen = 0
     for fam, maxlen in cfg["fams"]:
-        r = C.export("NaturalSortScen", "INIT ScenInit\nNEXT ScenNext\nCHECK_DEADLOCK FALSE\nCONSTRAINT Emit\nINVARIANT ModelOK\n"
+        r = C.export("NaturalSortScen", "INIT ScenInit\nNEXT ScenNext\nCHECK_DEADLOCK FALSE\nCONSTRAINT Emit\nINVARIANT ModelOK\nINVARIANT PadLemma\n"
                      f'CONSTANTS Fam = "{fam}" MaxLen = {maxlen}\n', run.dir, name=f"scen-{fam}")
         if len(r["objs"]) != r["distinct"] or not r["objs"]:
             raise C.Machinery(f"scenario export {fam}: {len(r['objs'])} parsed vs {r['distinct']} states")
@@ -88,6 +89,14 @@ def main(tier, replay=None):
         gen += r["generated"]
         scen += r["objs"]
     scen += random_scen(random.Random(C.seed()), cfg["rnd"])
+    # long names: a sample of the same name sets behind a common prefix that holds hundreds of numbers (or a thousand letters) - names of
+    # re-curated, concatenated assemblies are not bounded, and the ordering must not depend on where in a name a number sits
+    rng = random.Random(C.seed() + 5)
+    multi = [s for s in scen if len(s["names"]) >= 2]
+    # (the trace keeps the names as exported plus the prefix; NaturalSortScen!PadLemma is why the judge may look at the exported names only)
+    for pad in ("1_" * 300, "7." * 257 + "s", "x" * 1000 + "_", "I_" * 260, "I_2_" * 140):
+        for s in rng.sample(multi, min(cfg["long"], len(multi))):
+            scen.append(dict(s, pad=pad))
     for i, s in enumerate(scen, 1):
         s["tid"] = i
     traces = C.pmap("harness.c20", "run_case", scen, chunk=1000)
